@@ -5,6 +5,7 @@ package c10
 // cell-by-cell snapshot.
 
 import (
+	"database/sql"
 	"fmt"
 	"reflect"
 	"sort"
@@ -28,9 +29,12 @@ const (
 	kUnixSec
 	kUnixMilli
 	kUnixNano
+	kPInt    // *int64
+	kNullStr // sql.NullString (a driver.Valuer / sql.Scanner struct)
+	kPTime   // *time.Time (tracked time fields)
 )
 
-var kindNames = []string{"int", "string", "bool", "float", "*string", "time", "unixsec", "unixmilli", "unixnano"}
+var kindNames = []string{"int", "string", "bool", "float", "*string", "time", "unixsec", "unixmilli", "unixnano", "*int", "sql.NullString", "*time"}
 
 func (k kind) String() string { return kindNames[k] }
 
@@ -134,8 +138,15 @@ type field struct {
 	// DBDefault: the default is also declared to gorm, as an SQL expression gorm cannot turn into a Go
 	// value (tag default:(expr)); the DDL uses the same expression, which evaluates to Default
 	DBDefault string
-	PK      bool
-	NoAuto  bool // key member declared autoIncrement:false (composite keys)
+	PK        bool
+	NoAuto    bool // key member declared autoIncrement:false (composite keys)
+	// GoType: for kInt "int64" (default), "int", "int32", "uint"; for kFloat "float64" (default), "float32"
+	GoType string
+	// GoDefault: a default gorm parses into a Go value (tag default:555): a zero value is replaced by it on
+	// create. The DDL default of the column (Default) differs from it, so the two are distinguishable.
+	GoDefault cell
+	// Emb: the field lives in the embedded struct (field "Emb" of the model, tag embedded;embeddedPrefix:e_)
+	Emb bool
 }
 
 // perms is the predictor's reading of the permission tag (gorm documentation,
@@ -156,6 +167,14 @@ func (f field) perms() (known, create, update bool) {
 	panic("harness: unknown permission tag " + f.Perm)
 }
 
+// baseCol is the column name as the field's own struct sees it (without the embedded prefix).
+func (f field) baseCol() string {
+	if f.Emb {
+		return strings.TrimPrefix(f.Col, embPrefix)
+	}
+	return f.Col
+}
+
 func (f field) restricted() bool {
 	k, c, u := f.perms()
 	return !(k && c && u)
@@ -163,33 +182,52 @@ func (f field) restricted() bool {
 
 func (f field) goType() reflect.Type {
 	switch f.Kind {
-	case kInt, kUnixSec, kUnixMilli, kUnixNano:
+	case kInt:
+		switch f.GoType {
+		case "int":
+			return reflect.TypeOf(int(0))
+		case "int32":
+			return reflect.TypeOf(int32(0))
+		case "uint":
+			return reflect.TypeOf(uint(0))
+		}
+		return reflect.TypeOf(int64(0))
+	case kUnixSec, kUnixMilli, kUnixNano:
 		return reflect.TypeOf(int64(0))
 	case kString:
 		return reflect.TypeOf("")
 	case kBool:
 		return reflect.TypeOf(false)
 	case kFloat:
+		if f.GoType == "float32" {
+			return reflect.TypeOf(float32(0))
+		}
 		return reflect.TypeOf(float64(0))
 	case kPString:
 		return reflect.TypeOf((*string)(nil))
 	case kTime:
 		return reflect.TypeOf(time.Time{})
+	case kPInt:
+		return reflect.TypeOf((*int64)(nil))
+	case kNullStr:
+		return reflect.TypeOf(sql.NullString{})
+	case kPTime:
+		return reflect.TypeOf((*time.Time)(nil))
 	}
 	panic("harness: kind")
 }
 
 func (f field) sqlType() string {
 	switch f.Kind {
-	case kInt, kUnixSec, kUnixMilli, kUnixNano:
+	case kInt, kUnixSec, kUnixMilli, kUnixNano, kPInt:
 		return "integer"
-	case kString, kPString:
+	case kString, kPString, kNullStr:
 		return "text"
 	case kBool:
 		return "boolean"
 	case kFloat:
 		return "real"
-	case kTime:
+	case kTime, kPTime:
 		return "datetime"
 	}
 	panic("harness: kind")
@@ -204,13 +242,27 @@ func (f field) gormTag() string {
 		parts = append(parts, "autoIncrement:false")
 	}
 	if f.ColTag {
-		parts = append(parts, "column:"+f.Col)
+		parts = append(parts, "column:"+f.baseCol())
 	}
 	if f.AutoTag != "" {
 		parts = append(parts, f.AutoTag)
 	}
 	if f.DBDefault != "" {
 		parts = append(parts, "default:"+f.DBDefault)
+	}
+	if f.GoDefault != nil {
+		switch d := f.GoDefault.(type) {
+		case int64:
+			if f.Kind == kBool {
+				parts = append(parts, "default:true")
+			} else {
+				parts = append(parts, fmt.Sprintf("default:%d", d))
+			}
+		case float64:
+			parts = append(parts, fmt.Sprintf("default:%g", d))
+		case string:
+			parts = append(parts, "default:"+d)
+		}
 	}
 	if f.Perm != "" {
 		parts = append(parts, f.Perm)
@@ -220,6 +272,12 @@ func (f field) gormTag() string {
 
 func (f field) String() string {
 	s := fmt.Sprintf("%s %s", f.Name, f.Kind)
+	if f.GoType != "" {
+		s = fmt.Sprintf("%s %s", f.Name, f.GoType)
+	}
+	if f.Emb {
+		s = "Emb." + s
+	}
 	if t := f.gormTag(); t != "" {
 		s += " `" + t + "`"
 	}
@@ -235,8 +293,20 @@ type model struct {
 	NK     int      // number of primary key members: Fields[0] (ID) and, when 2, Fields[1] (Rev)
 	Rows   []rowKey // the pre-filled rows, ascending
 	IDs    []int64  // distinct values of the first key member, ascending
-	NoRet  bool    // the handle's dialector registers the callbacks without RETURNING
+	NoRet  bool     // the handle's dialector registers the callbacks without RETURNING
+	// embedded struct: fields with Emb live in model field "Emb" (a struct, or a pointer to it when EmbPtr)
+	EmbPtr bool
+	embTyp reflect.Type
+	outer  []int // per field: index in the model struct (-1: embedded)
+	inner  []int // per field: index in the embedded struct (-1: not embedded)
+	embIdx int   // index of the "Emb" field in the model struct
+	// gorm.Config switches of the handle
+	SkipDefaultTx   bool
+	PrepareStmt     bool
+	CreateBatchSize int
 }
+
+const embPrefix = "e_"
 
 const tableName = "c10_items"
 
@@ -274,14 +344,47 @@ func (m *model) keyOfRow(row []cell) rkey {
 func isZeroCell(c cell) bool { return c == nil || c == int64(0) || c == "" }
 
 func (m *model) build() {
-	sf := make([]reflect.StructField, len(m.Fields))
+	var sf, ef []reflect.StructField
+	m.outer, m.inner = make([]int, len(m.Fields)), make([]int, len(m.Fields))
 	for i, f := range m.Fields {
-		sf[i] = reflect.StructField{Name: f.Name, Type: f.goType()}
+		x := reflect.StructField{Name: f.Name, Type: f.goType()}
 		if t := f.gormTag(); t != "" {
-			sf[i].Tag = reflect.StructTag(`gorm:"` + t + `"`)
+			x.Tag = reflect.StructTag(`gorm:"` + t + `"`)
+		}
+		if f.Emb {
+			m.outer[i], m.inner[i] = -1, len(ef)
+			ef = append(ef, x)
+		} else {
+			m.outer[i], m.inner[i] = len(sf), -1
+			sf = append(sf, x)
 		}
 	}
+	if len(ef) > 0 {
+		m.embTyp = reflect.StructOf(ef)
+		t := m.embTyp
+		if m.EmbPtr {
+			t = reflect.PtrTo(t)
+		}
+		m.embIdx = len(sf)
+		sf = append(sf, reflect.StructField{Name: "Emb", Type: t, Tag: reflect.StructTag(`gorm:"embedded;embeddedPrefix:` + embPrefix + `"`)})
+	}
 	m.Typ = reflect.StructOf(sf)
+}
+
+// fieldOf returns the settable reflect.Value of field i inside the model struct v (allocating the
+// embedded struct when it is a nil pointer).
+func (m *model) fieldOf(v reflect.Value, i int) reflect.Value {
+	if m.outer[i] >= 0 {
+		return v.Field(m.outer[i])
+	}
+	e := v.Field(m.embIdx)
+	if m.EmbPtr {
+		if e.IsNil() {
+			e.Set(reflect.New(m.embTyp))
+		}
+		e = e.Elem()
+	}
+	return e.Field(m.inner[i])
 }
 
 func (m *model) String() string {
@@ -297,12 +400,25 @@ func (m *model) String() string {
 	if m.NoRet {
 		b.WriteString(" no-returning")
 	}
+	if m.EmbPtr {
+		b.WriteString(" emb-pointer")
+	}
+	if m.SkipDefaultTx {
+		b.WriteString(" SkipDefaultTransaction")
+	}
+	if m.PrepareStmt {
+		b.WriteString(" PrepareStmt")
+	}
+	if m.CreateBatchSize > 0 {
+		fmt.Fprintf(&b, " CreateBatchSize=%d", m.CreateBatchSize)
+	}
 	return b.String()
 }
 
 // lookup resolves a name as a caller may spell it: the Go field name of any
 // field, or the column name of a field gorm maps to a column. -1 = unknown.
 func (m *model) lookup(name string) int {
+	name = strings.TrimPrefix(name, tableName+".")
 	for i, f := range m.Fields {
 		if f.Name == name {
 			return i
@@ -374,12 +490,17 @@ func (m *model) sentinel(rk rowKey, ci int) cell {
 		return (id + int64(ci)) % 2
 	case kFloat:
 		return float64(n) + 0.5
-	case kPString:
+	case kPString, kNullStr:
 		if (id+int64(ci))%3 == 0 {
 			return nil
 		}
 		return fmt.Sprintf("p%dc%d", id, ci)
-	case kTime:
+	case kPInt:
+		if (id+int64(ci))%3 == 0 {
+			return nil
+		}
+		return n + 2
+	case kTime, kPTime:
 		return seedBase.Add(time.Duration(id)*time.Hour + time.Duration(ci)*time.Minute)
 	case kUnixSec:
 		return 1_600_000_000 + n
@@ -393,7 +514,7 @@ func (m *model) sentinel(rk rowKey, ci int) cell {
 
 func nowCell(f field) cell {
 	switch f.Kind {
-	case kTime:
+	case kTime, kPTime:
 		return nowTime
 	case kUnixSec, kInt:
 		return nowTime.Unix()
@@ -414,7 +535,7 @@ func zeroCell(f field) cell {
 		return ""
 	case kFloat:
 		return float64(0)
-	case kPString:
+	case kPString, kPInt, kNullStr, kPTime:
 		return nil
 	case kTime:
 		return time.Time{}
@@ -479,7 +600,8 @@ func (t *table) render(m *model) string {
 // openTable opens a fresh database whose handle has the sentinel clock, creates
 // the table by raw DDL and fills the sentinel rows.
 func openTable(m *model) *testdb.DB {
-	d := testdb.Open(testdb.Options{NoReturning: m.NoRet, Config: gorm.Config{NowFunc: func() time.Time { return nowTime }}})
+	d := testdb.Open(testdb.Options{NoReturning: m.NoRet, Config: gorm.Config{NowFunc: func() time.Time { return nowTime },
+		SkipDefaultTransaction: m.SkipDefaultTx, PrepareStmt: m.PrepareStmt, CreateBatchSize: m.CreateBatchSize}})
 	if _, err := d.SQL.Exec(m.ddl()); err != nil {
 		d.Close()
 		panic("harness: ddl: " + err.Error() + ": " + m.ddl())
